@@ -186,6 +186,50 @@ func VfC15_MarkVsRemove() {
 	nd.Cover("raced")
 }
 
+// VfC15_UpdateVsReader: a reader (a connection being balanced) asks for the usable hosts while one
+// update of the set is applied: the whole endpoint list announced again (ReplaceAll), an address
+// announced again with the other type (Add), or a batch removed. Readers do not take the set's
+// lock, so whatever they get must be the usable hosts of the set before or after the update -
+// never a half-applied one (an empty list although a main host is usable before and after, or
+// backup hosts while a main host is).
+func VfC15_UpdateVsReader() {
+	nd.VisibleAtomics(true)
+	m1, m2, b1 := NewWithType(vfAddrs[0], TypeMain), NewWithType(vfAddrs[1], TypeMain), NewWithType("10.0.0.9:1", TypeBackup)
+	set := NewSet(m1, m2, b1)
+	before := append([]*Host(nil), set.Healthy()...)
+	var seen []*Host
+	got := false
+	kind := nd.Concrete(nd.Choice("update", 3))
+	go func() {
+		switch kind {
+		case 0: // the same endpoints are announced again as a whole
+			set.ReplaceAll([]*Host{NewWithType(vfAddrs[0], TypeMain), NewWithType(vfAddrs[1], TypeMain), NewWithType("10.0.0.9:1", TypeBackup)})
+		case 1: // both main hosts are announced again in one update
+			set.Add(NewWithType(vfAddrs[0], TypeMain), NewWithType(vfAddrs[1], TypeMain))
+		case 2: // one main host and the backup host leave in one update
+			set.Remove(New(vfAddrs[0]), New("10.0.0.9:1"))
+		}
+	}()
+	go func() { seen = append([]*Host(nil), set.Healthy()...); got = true }()
+	nd.PanicLabel("update-vs-reader")
+	nd.Quiesce()
+	after := set.Healthy()
+	nd.Assert(got, "the reader returns")
+	same := func(a, b []*Host) bool {
+		if len(a) != len(b) {
+			return false
+		}
+		for i := range a {
+			if a[i].Addr != b[i].Addr || a[i].Type != b[i].Type {
+				return false
+			}
+		}
+		return true
+	}
+	nd.Assert(same(seen, before) || same(seen, after), "a reader sees the usable hosts of the set before or after an update, never a half-applied update")
+	nd.Cover("update-raced")
+}
+
 // VfC15_MarkVsMark: two health transitions of the same member race (a passive failure report and
 // the active checker, or two checkers): whatever the interleaving, afterwards the member is
 // reported as usable exactly if it is marked healthy.
